@@ -3,125 +3,13 @@
 //   C07 what the schema reports after the history == from-scratch analysis ((i) the specification's, (ii) a reloaded copy)
 //   C08 renamings rewrite all and only the mentions (content equality with the specification after rename operations)
 //   C10 save / load through JSON is lossless and stable
-#include "rslang_text.hpp"
-#include "ccl/semantic/RSForm.h"
-#include "ccl/tools/JSON.h"
-#include "ccl/tools/EntityGenerator.h"
+#include "schema_common.hpp"
 #include "ccl/ops/RSOperations.h"
-#include "ccl/rslang/SyntaxTree.h"
-
-#include <deque>
-
-using vh::json;
-using namespace ccl;
-using semantic::CstType;
-using semantic::RSForm;
-using semantic::ConceptRecord;
-using JSON = nlohmann::ordered_json;
 
 static std::set<std::string> g_props;
 static bool On(const char* p) { return g_props.empty() || g_props.count(p) > 0; }
 
-static std::deque<EntityUID> g_uids;    // identifiers the generator drew for the next insertions (hook)
-static void InstallHook() {
-  tools::EntityGenerator::verifSource = []() -> EntityUID {
-    if (g_uids.empty()) return static_cast<EntityUID>(1000000 + std::rand() % 1000000);
-    const auto u = g_uids.front(); g_uids.pop_front(); return u;
-  };
-}
-
-static CstType KindOf(const std::string& k) {
-  if (k == "base") return CstType::base; if (k == "constant") return CstType::constant; if (k == "structured") return CstType::structured;
-  if (k == "axiom") return CstType::axiom; if (k == "term") return CstType::term; if (k == "function") return CstType::function;
-  if (k == "theorem") return CstType::theorem; return CstType::predicate;
-}
-static std::string KindName(CstType t) {
-  switch (t) { case CstType::base: return "base"; case CstType::constant: return "constant"; case CstType::structured: return "structured";
-    case CstType::axiom: return "axiom"; case CstType::term: return "term"; case CstType::function: return "function";
-    case CstType::theorem: return "theorem"; default: return "predicate"; }
-}
-static char LetterOf(CstType t) {
-  switch (t) { case CstType::base: return 'X'; case CstType::constant: return 'C'; case CstType::structured: return 'S'; case CstType::axiom: return 'A';
-    case CstType::term: return 'D'; case CstType::function: return 'F'; case CstType::theorem: return 'T'; default: return 'P'; }
-}
-static std::string DefText(const json& toks) { return toks.empty() ? std::string{} : rstext::Assemble(toks, true, 0).text; }
-static std::string Words(const json& w) { std::string s; for (auto& x : w) { if (!s.empty()) s += ' '; s += x.get<std::string>(); } return s; }
-static std::string Atoms(const json& q) { std::string s; for (auto& a : q) { if (!s.empty()) s += ' '; s += a["r"].get<bool>() ? "@{" + a["s"].get<std::string>() + "|sing,nomn}" : a["s"].get<std::string>(); } return s; }
-static std::string AsciiType(std::string s) {
-  auto rep = [&](const std::string& a, const std::string& b) { size_t p; while ((p = s.find(a)) != std::string::npos) s.replace(p, a.size(), b); };
-  rep("ℬ", "B"); rep("×", "*"); return s;
-}
-
-// ------------------------------------------------------------------ projection of the implementation state
-static json Project(const RSForm& f) {
-  json items = json::array(), order = json::array();
-  for (const auto uid : f.List()) {
-    order.push_back(uid);
-    json it = { {"uid", uid} };
-    if (f.Core().Contains(uid)) {
-      const auto& rs = f.GetRS(uid); const auto& tx = f.GetText(uid); const auto& p = f.GetParse(uid);
-      it["alias"] = rs.alias; it["kind"] = KindName(rs.type); it["def"] = rs.definition; it["conv"] = rs.convention;
-      it["term"] = tx.term.Text().Raw(); it["text"] = tx.definition.Raw(); it["termStr"] = tx.term.Nominal(); it["textStr"] = tx.definition.Str();
-      it["tracked"] = f.Mods().IsTracking(uid); it["allow"] = f.Mods().IsTracking(uid) ? f.Mods()(uid)->allowEdit : false;
-      it["ok"] = p.status == semantic::ParsingStatus::VERIFIED; it["status"] = static_cast<int>(p.status);
-      it["type"] = p.exprType.has_value() ? (std::holds_alternative<rslang::LogicT>(*p.exprType) ? std::string("LOGIC") : AsciiType(std::get<rslang::Typification>(*p.exprType).ToString())) : std::string{};
-      json args = json::array(); if (p.arguments.has_value()) for (auto& a : *p.arguments) args.push_back({ {"name", a.name}, {"type", AsciiType(a.type.ToString())} }); it["args"] = args;
-      it["valueClass"] = static_cast<int>(p.valueClass);
-      it["ast"] = p.ast ? rslang::AST2String::Apply(*p.ast) : std::string{};
-      std::set<int> deps; for (auto d : f.RSLang().Graph().InputsFor(uid)) deps.insert(static_cast<int>(d)); it["deps"] = deps;
-      it["textAlias"] = tx.alias; it["textUid"] = tx.uid; it["rsUid"] = rs.uid;
-    } else it["missing"] = true;
-    items.push_back(it);
-  }
-  return { {"order", order}, {"items", items} };
-}
-
-// C09 on the projected implementation state; uidPool = every identifier that ever occurred in the history
-static std::string Invariants(const RSForm& f, const std::set<EntityUID>& uidPool) {
-  std::set<EntityUID> inList, inCore; std::set<std::string> aliases; size_t listLen = 0; int lastPrio = 99;
-  auto prio = [](CstType t) { return t == CstType::base ? 4 : t == CstType::constant ? 3 : t == CstType::structured ? 2 : 1; };
-  for (const auto uid : f.List()) { ++listLen; if (!inList.insert(uid).second) return "list contains an identifier twice";
-    if (!f.Core().Contains(uid)) return "list entry missing in storage";
-    const auto& rs = f.GetRS(uid);
-    if (rs.uid != uid || f.GetText(uid).uid != uid) return "record identifier differs from its key";
-    if (f.GetText(uid).alias != rs.alias) return "text part and formal part disagree on the alias";
-    if (!aliases.insert(rs.alias).second) return "alias used twice";
-    if (rs.alias.size() < 2 || rs.alias[0] != LetterOf(rs.type) || !std::all_of(rs.alias.begin() + 1, rs.alias.end(), [](char ch) { return std::isdigit(static_cast<unsigned char>(ch)); })) return "alias letter does not match kind";
-    if (prio(rs.type) > lastPrio) return "list not grouped base < constant < structure < derived";
-    lastPrio = prio(rs.type);
-    const auto found = f.Core().FindAlias(rs.alias); if (!found.has_value() || *found != uid) return "FindAlias does not return the constituent"; }
-  for (const auto uid : f.Core()) inCore.insert(uid);
-  if (inCore != inList || f.Core().size() != listLen) return "list is not a permutation of the storage";
-  size_t nTexts = 0; for (const auto& t : f.Texts()) { ++nTexts; if (!inCore.count(t.uid)) return "thesaurus holds a foreign constituent"; }
-  if (nTexts != listLen) return "thesaurus size differs";
-  for (const auto uid : uidPool) if (!inCore.count(uid)) {     // gone from every view
-    if (f.List().Find(uid) != f.List().end() || f.RSLang().Contains(uid) || f.Texts().Contains(uid) || f.Mods().IsTracking(uid) || f.RSLang().Graph().Contains(uid))
-      return "erased / never inserted identifier still visible in some view";
-  }
-  if (f.RSLang().Graph().ItemsCount() != static_cast<int>(listLen)) return "dependency graph has a different number of items";
-  return "";
-}
-
-static JSON Save(const RSForm& f) { JSON j = f; return j; }
-static std::unique_ptr<RSForm> LoadForm(const JSON& j) { auto f = std::make_unique<RSForm>(); j.get_to(*f); return f; }
-
-static ConceptRecord RecordOf(const json& r) {
-  ConceptRecord rec; rec.uid = r["uid"].get<EntityUID>(); rec.alias = r["alias"]; rec.type = KindOf(r["kind"]); rec.rs = DefText(r["d"]); rec.convention = Words(r["conv"]);
-  rec.term = lang::LexicalTerm(Atoms(r["term"])); rec.definition = lang::ManagedText(Atoms(r["text"]));
-  return rec;
-}
-
 // ------------------------------------------------------------------ C13: extraction operations
-static std::string RenameAliases(const std::string& type, const std::map<std::string, std::string>& map) {
-  std::string out; size_t i = 0;
-  while (i < type.size()) {
-    if (std::isupper(static_cast<unsigned char>(type[i])) && i + 1 < type.size() && std::isdigit(static_cast<unsigned char>(type[i + 1]))) {
-      size_t j = i + 1; while (j < type.size() && std::isdigit(static_cast<unsigned char>(type[j]))) ++j;
-      const auto name = type.substr(i, j - i); const auto it = map.find(name); out += it == map.end() ? name : it->second; i = j;
-    } else out += type[i++];
-  }
-  return out;
-}
 static void CheckOneExtraction(const RSForm& src, const json& srcProj, const char* opName, const json& sel, bool specDefined, const json& expect,
                                bool implDefined, const std::unique_ptr<RSForm>& res, const json& wit, vh::Report& r) {
   ++r.checks;
